@@ -48,6 +48,17 @@ pub struct HeadSet {
 pub enum Case {
     History(History),
     Heads(HeadSet),
+    /// the heads a reconciliation session reports (what the live engine broadcasts as its sync report afterwards) and what a
+    /// third replica makes of that report
+    Session(SessionCase),
+}
+
+#[derive(Serialize, Deserialize, Clone, Debug)]
+pub struct SessionCase {
+    pub pools: Pools,
+    pub a: Vec<EGen>,
+    pub b: Vec<EGen>,
+    pub c: Vec<EGen>,
 }
 
 fn slot_author(slot: u16) -> AuthorId {
@@ -102,7 +113,10 @@ impl Prop for C13 {
          of a generated report that are unknown or strictly newer; (b) head sets of 0..=12 authors with shared timestamps: \
          encode/decode identity without limit, and under every generated limit: length <= limit, decoded subset, the k greatest \
          timestamps with k maximal; non-trivial = (a) an older entry of an author arrives after a newer one at another key, or a \
-         removal with data, (b) >= 2 authors on one timestamp or a limit that cuts the set; distinct by serialised case"
+         removal with data, (b) >= 2 authors on one timestamp or a limit that cuts the set; (c) two replicas are reconciled and each \
+         side's reported heads_received (what the engine broadcasts as its sync report) must be the per-author maxima of the entries \
+         it was sent according to the transcript, and a third replica must count exactly the unknown / strictly newer authors of that \
+         report as news; distinct by serialised case"
             .into()
     }
 
@@ -137,13 +151,15 @@ impl Prop for C13 {
             vec((prop_oneof![1 => any::<u16>(), 1 => 20000u16..34000], -1i8..=1), 1..=6),
         )
             .prop_map(|(heads, other, limits, fit_limits)| Case::Heads(HeadSet { heads, other, limits, fit_limits }));
-        prop_oneof![10 => hist, 19 => heads, 1 => many].boxed()
+        let session = (pools(6), vec(egen(), 0..=8), vec(egen(), 0..=8), vec(egen(), 0..=8)).prop_map(|(pools, a, b, c)| Case::Session(SessionCase { pools, a, b, c }));
+        prop_oneof![10 => hist, 19 => heads, 1 => many, 1 => session].boxed()
     }
 
     fn check(ctx: &mut Ctx, case: &Case) -> Outcome {
         match case {
             Case::History(h) => check_history(ctx, h),
             Case::Heads(h) => check_heads(h),
+            Case::Session(s) => check_session(ctx, s),
         }
     }
 
@@ -414,4 +430,83 @@ fn check_history(ctx: &mut Ctx, h: &History) -> Outcome {
     let _ = idx(0, 1);
     let _: Option<SignedEntry> = None;
     o
+}
+
+/// Heads reported by a session: after a complete session each side's `heads_received` must name, for every author, the
+/// greatest timestamp among the entries that side was sent (an independent reading of the transcript), and a third replica
+/// must flag that report as news exactly for the authors it does not know or knows only older entries of.
+fn check_session(ctx: &mut Ctx, c: &SessionCase) -> Outcome {
+    use crate::wire::{run_session, MMessage};
+    let mut o = Outcome::default();
+    o.class("session-report");
+    let r: R<()> = (|| {
+        let keys = c.pools.keys();
+        let authors = c.pools.authors();
+        let nssec = namespace(c.pools.ns).clone();
+        let ns = nssec.id();
+        verif::set_clock(Some(T0 + 3));
+        let sign_all = |v: &Vec<EGen>| -> Vec<SignedEntry> { v.iter().map(|e| sign(&nssec, &to_espec(e, &authors, &keys))).collect() };
+        let mut sa = AnyStore::new(ctx, false)?;
+        let mut sb = AnyStore::new(ctx, false)?;
+        let mut sc = AnyStore::new(ctx, false)?;
+        populate(&ctx.rt, &mut sa.store, &nssec, &sign_all(&c.a))?;
+        populate(&ctx.rt, &mut sb.store, &nssec, &sign_all(&c.b))?;
+        let mc = populate(&ctx.rt, &mut sc.store, &nssec, &sign_all(&c.c))?;
+        let t = run_session(&ctx.rt, &mut sa.store, &mut sb.store, ns, 200)?;
+        if !t.completed {
+            return Ok(()); // C01's business
+        }
+        // what each side was sent, read off the transcript: even messages go initiator -> responder
+        let mut sent_to: [BTreeMap<AuthorId, u64>; 2] = [BTreeMap::new(), BTreeMap::new()];
+        for (i, m) in t.msgs.iter().enumerate() {
+            let mm: MMessage = postcard::from_bytes(m).map_err(|e| format!("mirror: {e:?}"))?;
+            let to = if i % 2 == 0 { 1 } else { 0 };
+            for e in mm.values() {
+                let h = sent_to[to].entry(e.author()).or_insert(0);
+                *h = (*h).max(e.timestamp());
+            }
+        }
+        for (side, out, want) in [("initiator", &t.init_out, &sent_to[0]), ("responder", &t.resp_out, &sent_to[1])] {
+            let got: BTreeMap<AuthorId, u64> = out.heads_received.iter().map(|(a, t)| (*a, *t)).collect();
+            if &got != want {
+                o.fail(
+                    "C13/session-heads-received",
+                    format!("the {side} reports heads {:?} for the entries it received, the transcript says {:?}", brief_heads(&got), brief_heads(want)),
+                );
+                return Ok(());
+            }
+            if !want.is_empty() {
+                o.nontrivial = true;
+            }
+        }
+        // the report as the engine sends it (bounded encoding, far above these sizes), judged by a third replica
+        for out in [&t.init_out, &t.resp_out] {
+            let bytes = es(out.heads_received.encode(Some(4096)))?;
+            let report = es(AuthorHeads::decode(&bytes))?;
+            let ours = mc.heads();
+            let want = report.iter().filter(|(a, t)| ours.get(&a.to_bytes()).map(|mine| **t > *mine).unwrap_or(true)).count();
+            let got = es(sc.store.has_news_for_us(ns, &report))?.map(|n| n.get() as usize).unwrap_or(0);
+            if got != want {
+                o.fail("C13/has-news-for-us", format!("a third replica with heads {:?} counts {got} authors of the session report {:?} as news, the definition says {want}", ours.iter().map(|(a, t)| (hex::encode(&a[..2]), *t)).collect::<Vec<_>>(), brief_heads(&report.iter().map(|(a, t)| (*a, *t)).collect())));
+                return Ok(());
+            }
+        }
+        sa.cleanup();
+        sb.cleanup();
+        sc.cleanup();
+        Ok(())
+    })();
+    verif::set_clock(None);
+    if let Err(e) = r {
+        if e.starts_with("populate:") {
+            o.class("skipped/ingress-disagrees-with-model");
+        } else {
+            o.fail("C13/harness-error", e);
+        }
+    }
+    o
+}
+
+fn brief_heads(m: &BTreeMap<AuthorId, u64>) -> Vec<(String, u64)> {
+    m.iter().map(|(a, t)| (hex::encode(&a.as_bytes()[..2]), *t)).collect()
 }
